@@ -99,7 +99,9 @@ def strategy(cfg):
             if maybe():
                 src[s]["rst.prefix"] = "pfx_" + s if not (s == "cli" and draw(st.integers(0, 5)) == 0) else ""
             if maybe():
-                src[s]["input.exclude_filters"] = [f"pat_{s}_{j}" for j in range(draw(st.integers(1, 3)))]
+                # 0 patterns = the key is set, to an empty list (not the same as unset)
+                src[s]["input.exclude_filters"] = [f"pat_{s}_{j}" for j in range(draw(st.integers(0, 3)))] if s != "cli" \
+                    else [f"pat_{s}_{j}" for j in range(draw(st.integers(1, 3)))]
             if maybe():
                 src[s]["output.directory"] = draw(st.sampled_from(["outdir_" + s, "sub/out_" + s, "{BASE}/abs_out_" + s]
                                                                   + ([""] if s == "cli" else [])))
